@@ -13,7 +13,8 @@
    Contract.group_batch = Grouping.pair_in_grouped on one batch), emit every item; the per-operation contract lemmas
    of C03 (Proofs/ContractProofs.v) are reused: replay only looks at the first structural event of each contract. *)
 Require Import WD.Base.Prelude WD.Base.BStr WD.Model.SubEvents WD.Model.Emitter WD.Model.Fs WD.Model.Reader
-               WD.Model.Pipeline WD.Model.Contract WD.Proofs.CoverProofs WD.Proofs.CoverOutProofs WD.Proofs.ReplayProofs WD.Proofs.ReplayOutProofs WD.Proofs.ReplayPipeProofs.
+               WD.Model.Pipeline WD.Model.Contract WD.Proofs.CoverProofs WD.Proofs.CoverOutProofs WD.Proofs.ReplayProofs WD.Proofs.ReplayOutProofs WD.Proofs.ReplayPipeProofs
+               WD.Proofs.ContractProofs WD.Proofs.TieStrongProofs WD.Proofs.CutsProofs WD.Proofs.CutsReaderProofs WD.Proofs.CutsShapeProofs WD.Proofs.CutsPipeProofs.
 
 (* ---- the association-list replay has the obvious pointwise meaning, and keeps keys distinct *)
 Theorem C01_replay_semantics : forall recursive root t e, NoDup (map fst t) ->
@@ -344,3 +345,51 @@ Proof.
 Qed.
 (* the F10d history contains a directory moved INTO the tree: C02 covers it (C02_f10_ops_x_nonvacuous); its replay
    (synthetic created events) is not proved in general - C01_f10_repaired above is the computed instance *)
+
+
+(* ================================================================== how the kernel's buffer is split between reads *)
+(* buffer level (Grouping over the delay queue): the block  AOp o; ARead n1; ...; ARead nj; ATick delay; AEmit x nit  delivers
+   what the block with one read delivers - emit_all over group_batch of ALL the reader's events of the block.  A rename
+   whose IN_MOVED_FROM was put (delayed) by an earlier read is still paired: _group_events removes it from the queue and
+   the pair is put.  rcut = the reader over the cut (C02_cut_reads: same reader state, kernel and events as one read);
+   cuts_ok = the pairing condition on the cut; it holds for every cut of one operation's records (C02_cut_paired). *)
+Theorem C01_tie_cuts : forall P, pc_filter P = None -> forall s o w' cuts r' k' Rs, let C := pc_reader P in
+  buffer_idle (p_buf s) -> p_stopped s = false -> (forall id, In id (map fst (p_tbl s)) -> (id < p_next s)%N) ->
+  apply_op (p_world s) o = Some w' ->
+  rcut C (w_fs w') (p_r s) (kernel_op (p_k s) (w_fs (p_world s)) o) cuts = Done (r', k', Rs) ->
+  Forall (root_safe C) (concat Rs) -> cuts_ok C [] Rs ->
+  exists nit s' obs, prun P s (cut_history P o cuts nit) [] = Done (s', obs) /\
+    p_out s' = p_out s ++ emit_all (pc_full P) (c_recursive C) (c_root C) (content (w_fs w')) (group_batch C (concat Rs)) /\
+    p_world s' = w' /\ p_k s' = k' /\ p_r s' = r' /\
+    buffer_idle (p_buf s') /\ p_stopped s' = false /\ (forall id, In id (map fst (p_tbl s')) -> (id < p_next s')%N).
+Proof. exact tie_strong_cuts. Qed.
+Print Assumptions C01_tie_cuts.
+
+(* the replay law over histories of any length of blocks with ARBITRARY cuts chosen by ct (sum_cutter: the cuts of every
+   block add up to the number of queued records - nothing else) *)
+Theorem C01_sequential_pipeline_cuts_partial : forall P ct t0, let C := pc_reader P in
+  c_faults C = [] -> c_fix_moveout C = true -> c_mask C = WATCHDOG_ALL -> pc_filter P = None -> sum_cutter P ct ->
+  forall ops s hot, PSx P s hot -> ops_x1 C (p_world s) hot ops ->
+  TInv (c_recursive C) (c_root C) (replay (c_recursive C) (c_root C) t0 (p_out s)) (p_world s) ->
+  exists h s' obs hot', cut_hist P ct s ops h /\ prun P s h [] = Done (s', obs) /\ PSx P s' hot' /\
+    TInv (c_recursive C) (c_root C) (replay (c_recursive C) (c_root C) t0 (p_out s')) (p_world s').
+Proof. exact blocks_replay_cuts. Qed.
+Print Assumptions C01_sequential_pipeline_cuts_partial.
+
+Theorem C01_pipeline_from_start_cuts_partial : forall P ct ops w s0, let C := pc_reader P in
+  c_faults C = [] -> c_fix_moveout C = true -> c_mask C = WATCHDOG_ALL -> pc_filter P = None -> sum_cutter P ct -> wf_fs w ->
+  fisdir (c_root C) (w_fs w) = true -> pinit P w = Some s0 -> ops_x1 C w None ops ->
+  exists h s' obs hot', cut_hist P ct s0 ops h /\ prun P s0 h [] = Done (s', obs) /\ PSx P s' hot' /\
+    forall x, alookup beqb x (replay (c_recursive C) (c_root C) (tree_of (c_recursive C) (c_root C) w) (p_out s'))
+            = alookup beqb x (tree_of (c_recursive C) (c_root C) (p_world s')).
+Proof. exact replay_pipeline_from_start_cuts. Qed.
+Print Assumptions C01_pipeline_from_start_cuts_partial.
+
+(* a rename cut between IN_MOVED_FROM and IN_MOVED_TO, through the pipeline: the same events as with one read *)
+Example C01_cut_rename_example :
+  exists s0 sc sb oc ob, pinit (Px true) w0 = Some s0 /\
+    prun (Px true) s0 hcut [] = Done (sc, oc) /\ prun (Px true) s0 hbig [] = Done (sb, ob) /\
+    p_out sc = p_out sb /\ p_r sc = p_r sb /\ p_k sc = p_k sb /\
+    In {| ev_cls := DirMoved; ev_src := sub pR 97; ev_dest := sub pR 98; ev_synth := false |} (p_out sc) /\
+    k_queue (p_k sc) = [] /\ Cover (cfgx true true) (w_fs (p_world sc)) (p_k sc) (p_r sc).
+Proof. exact cut_rename_example. Qed.
